@@ -98,6 +98,35 @@ def handle (op : String) (a : Json) : Except String Json := do
       | .error .typeError => return err "TypeError"
       | .error .notFound => return err "NotFound"
     | _, _ => return err "OutOfDomain"
+  | "op_record" =>
+    -- the record `GlobalStatsCalculator` stores for one task: summary_stats + add_op_metrics
+    let task ← getStr a "task"
+    let operation ← getStr a "operation"
+    let unit ← getOptStr a "unit"
+    let optVal (k : String) : Except String (Option (Option Val)) := do
+      match a.getObjVal? k with
+      | .ok Json.null => return some none
+      | .ok v => match (← getVal v) with
+        | some x => return some (some x)
+        | none => return none
+      | .error _ => return some none
+    let some mean ← optVal "mean" | return err "OutOfDomain"
+    let some median ← optVal "median" | return err "OutOfDomain"
+    let some mn ← optVal "min" | return err "OutOfDomain"
+    let some mx ← optVal "max" | return err "OutOfDomain"
+    let some e ← optVal "error_rate" | return err "OutOfDomain"
+    let some timings ← getPairs a "timings" getVal | return err "OutOfDomain"
+    let stats := match mn, mx with
+      | some x, some y => some (x, y)
+      | _, _ => none
+    match e with
+    | none => throw "error_rate missing"
+    | some ev =>
+      let r := opRecord task operation (summaryStats mean median stats unit) timings ev
+      return ok (Json.mkObj [("task", optStr r.task), ("operation", str r.operation),
+        ("vals", arr (r.sc.vals.map (fun kv => arr [str kv.1, valJson kv.2]))),
+        ("units", arr (r.sc.units.map (fun kv => arr [str kv.1, str kv.2])))])
+        [if (summaryStats mean median stats unit).vals.isEmpty then "no-throughput" else "throughput"]
   | "disk_row" =>
     let plain ← getBool a "plain"
     let inc := CompareRows.diskIncGood
